@@ -174,6 +174,11 @@ func runC02Patterns(c *Ctx) {
 			[]string{"geom.(Geometry).IsEmpty($0)", "geom.(Geometry).IsEmpty($1)"}, func(m *Model) bool {
 				models++
 				m.Missing = map[string]bool{}
+				// the operands' dimensions, however the code obtains them (that empty
+				// members are ignored is C20.operanddim's obligation)
+				for _, p := range []string{"$0", "$1"} {
+					m.Num["geom.highestDimensionIgnoreEmpties("+p+")"] = m.Num["geom.(Geometry).Dimension("+p+")"]
+				}
 				res, err := k4run(c.P, f, m, nil)
 				if err != nil || len(res) < 1 {
 					undec = fmt.Sprintf("%v %s", err, missingList(m))
@@ -323,6 +328,9 @@ func runC02Matrix(c *Ctx) {
 			models++
 			it := &k4interp{p: c.P, m: m, mem: map[string]k4val{}, inline: func(g *ssa.Function) bool { return inl[FuncName(g)] }}
 			m.Missing = map[string]bool{}
+			for _, p := range []string{"$0", "$1"} {
+				m.Num["geom.highestDimensionIgnoreEmpties("+p+")"] = m.Num[dimKey(p)]
+			}
 			res, err := it.call(f, []k4val{{kind: 3, s: "$0"}, {kind: 3, s: "$1"}}, nil)
 			if err != nil {
 				undec = fmt.Sprintf("%v %s", err, missingList(m))
